@@ -3,6 +3,7 @@ package alephium
 import (
 	"context"
 	"encoding/hex"
+	"time"
 
 	sdk "github.com/alephium/go-sdk"
 	"github.com/alephium/wormhole-fork/node/pkg/vaa"
@@ -60,9 +61,11 @@ func (w *Watcher) handleObsvRequest(ctx context.Context, logger *zap.Logger, cli
 				continue
 			}
 
+			now := time.Now().UnixMilli()
 			confirmed := make([]*reobservedEvent, 0)
 			for _, event := range events {
-				if event.header.Height+int32(event.confirmations) <= *currentHeight {
+				// same finality rule as the polling path: block confirmations and the wall-clock floor
+				if isEventConfirmed(logger, event.unconfirmed, event.header, now, *currentHeight, w.isMainnet) {
 					logger.Info("re-observed event",
 						zap.String("txId", txId),
 						zap.String("blockHash", blockHash),
@@ -156,6 +159,10 @@ func (w *Watcher) getGovernanceEventsByTxId(
 			msg.consistencyLevel,
 			header,
 			txId,
+			&UnconfirmedEvent{
+				&sdk.ContractEvent{BlockHash: event.BlockHash, TxId: txId, EventIndex: event.EventIndex, Fields: event.Fields},
+				msg,
+			},
 		})
 	}
 	return reobservedEvents, nil
@@ -166,4 +173,5 @@ type reobservedEvent struct {
 	confirmations uint8
 	header        *sdk.BlockHeaderEntry
 	txId          string
+	unconfirmed   *UnconfirmedEvent
 }
